@@ -226,6 +226,21 @@ func genOvr(r *Rng, cp *hermes.CropParam, kind int, name string, invalid bool, e
 	return o
 }
 
+var c18StageMemo = map[string]int{}
+
+// c18Stages: number of development stages of a shipped crop parameter file (0 if it cannot be read)
+func c18Stages(file string) int {
+	if n, ok := c18StageMemo[file]; ok {
+		return n
+	}
+	n := 0
+	if cp, err := hermes.ReadCropParamFromFile(filepath.Join(paramDir, file)); err == nil {
+		n = cp.NRENTW
+	}
+	c18StageMemo[file] = n
+	return n
+}
+
 func runC18Case(tier string, seed uint64, idx int, keepDir string) *CaseResult {
 	res := &CaseResult{Prop: "C18", Seed: seed, Index: idx, Status: "ok", Cov: map[string]int64{}}
 	r := NewRng(mix(mix(seed, uint64(idx)), 1818))
@@ -233,6 +248,10 @@ func runC18Case(tier string, seed uint64, idx int, keepDir string) *CaseResult {
 	p := defaultProfile()
 	p.Inject, p.Measurement = 0, 0
 	p.Years = [2]int{3, 3}
+	history := NewRng(mix(mix(seed, uint64(idx)), 1819)).Bool(0.35)
+	if history {
+		p.Years = [2]int{5, 6}
+	}
 	p.ColdClimate = 0.1
 	p.PTFProb, p.ExplicitProb = 0.05, 0.1
 	sc := genWithProfile("C18", seed, idx, r, p)
@@ -242,8 +261,17 @@ func runC18Case(tier string, seed uint64, idx int, keepDir string) *CaseResult {
 	sc.Latitude = float64(r.Range(350, 600)) / 10 // a climate in which the crops develop
 	// target: the rotation entry of that file, sown inside the period (second attempt: directly after the initial crop)
 	target := -1
+	// 35 %: a longer run in which one or two other crops are grown before the crop of the overridden file - preferably crops
+	// with more development stages or organs than it has (state of an earlier crop must not leak into what the override derives)
+	nst0 := c18Stages(cropParamFileName(cf[0], cf[1], true))
 	for attempt := 0; attempt < 2 && target < 0; attempt++ {
-		c13Rotation(sc, r, cf[0], cf[1], []float64{0.15, 0}[attempt])
+		if history && attempt == 0 {
+			c13RotationEx(sc, r, cf[0], cf[1], r.Range(1, 2), func(ci *CropInfo) bool {
+				return c18Stages(cropParamFileName(ci.Code, "", true)) > nst0
+			})
+		} else {
+			c13Rotation(sc, r, cf[0], cf[1], []float64{0.15, 0}[attempt])
+		}
 		for i := 1; i < len(sc.Rotation); i++ {
 			if sc.Rotation[i].Crop == cf[0] && sc.Rotation[i].Variety == cf[1] && sc.Rotation[i].Sow.Zeit() < sc.End.Zeit()-60 {
 				target = i
@@ -303,6 +331,9 @@ func runC18Case(tier string, seed uint64, idx int, keepDir string) *CaseResult {
 		kd := kinds[(idx/len(c13CropFiles)+idx+k*7)%len(kinds)]
 		if k > 0 {
 			kd = kinds[r.Intn(len(kinds))]
+		}
+		if history && k == 0 && r.Bool(0.5) {
+			kd = kinds[len(c18BaseParams)] // TSUM: the parameter other quantities are derived from when the file is read
 		}
 		if bool(cp.DAUERKULT) && k == 0 && r.Bool(0.4) {
 			kd = kinds[len(c18BaseParams)] // TSUM
@@ -452,13 +483,19 @@ func runC18Case(tier string, seed uint64, idx int, keepDir string) *CaseResult {
 		}
 	}
 	res.Cov["crop_"+te.Crop]++
+	if target > 1 {
+		res.Cov["pairs_with_other_crops_grown_before_the_overridden_one"]++
+		if c18Stages(cropParamFileName(sc.Rotation[target-1].Crop, sc.Rotation[target-1].Variety, true)) > cp.NRENTW {
+			res.Cov["pairs_preceded_by_a_crop_with_more_stages"]++
+		}
+	}
 	res.Sample = map[string]interface{}{"crop_file": fileName, "batch_line_override": lineArgs, "rejection_case": reject, "start": sc.Start.String(), "end": sc.End.String(), "sown": te.Sow.String()}
 	return res
 }
 
 func init() {
 	caseRunners["C18"] = runC18Case
-	floors := []string{"equivalence_pairs", "rejection_pairs", "pairs_where_override_changes_results", "pairs_override_for_unread_crop_file"}
+	floors := []string{"equivalence_pairs", "rejection_pairs", "pairs_where_override_changes_results", "pairs_override_for_unread_crop_file", "pairs_with_other_crops_grown_before_the_overridden_one", "pairs_preceded_by_a_crop_with_more_stages"}
 	for _, n := range append(append(append([]string{}, c18BaseParams...), c18StageParams...), c18PartParams...) {
 		floors = append(floors, "param_"+n)
 	}
